@@ -78,16 +78,37 @@ def Cons.isIdx : Cons → Bool
   | .idx _ => true
   | .uq _ => false
 
+def uqNamed (t : Tbl) : List (String × Cons) :=
+  t.uqs.filterMap (fun u => u.name.map (fun n => (n, Cons.uq u)))
+
+def idxNamed (t : Tbl) : List (String × Cons) :=
+  t.idxs.map (fun i => (i.name, Cons.idx i))
+
 /-- the named indexes / unique constraints of a table, keyed by name
 (`{c.name: c for c in uniques.union(indexes) if c.is_named}`) -/
-def namedCons (t : Tbl) : List (String × Cons) :=
-  t.uqs.filterMap (fun u => u.name.map (fun n => (n, Cons.uq u))) ++
-  t.idxs.map (fun i => (i.name, Cons.idx i))
+def namedCons (t : Tbl) : List (String × Cons) := uqNamed t ++ idxNamed t
 
 def namedConsOf (t : Option Tbl) : List (String × Cons) :=
   match t with
   | some t => namedCons t
   | none => []
+
+/-- `conn_indexes_by_name[n]` (`wantIdx`) / `conn_uniques_by_name[n]` -/
+def lookupTyped (t : Option Tbl) (wantIdx : Bool) (n : String) : Option Cons :=
+  match t with
+  | some t => if wantIdx then (idxNamed t).lookup n else (uqNamed t).lookup n
+  | none => none
+
+/-- the reflected object a metadata object named `n` is compared with: the one of the same type
+when the name is doubled (`doubled_constraints`), else whatever carries the name -/
+def lookupConn (t : Option Tbl) (wantIdx : Bool) (n : String) : Option Cons :=
+  match lookupTyped t wantIdx n with
+  | some c => some c
+  | none => lookupTyped t (!wantIdx) n
+
+def consSig : Cons → String
+  | .idx i => i.sig
+  | .uq u => u.sig
 
 def fkNames (t : Tbl) : List String := t.fks.filterMap (fun f => f.name)
 
